@@ -1,6 +1,7 @@
 #!/bin/sh
 # MANIFEST.setup_cmd: full .vo build of the Coq development, extraction, OCaml driver.  Offline.
 set -e
+python3 /verif/harness/gen_coqproject.py >/dev/null
 cd /verif/coq
 coq_makefile -f _CoqProject -o Makefile >/dev/null
 timeout 5400 make -j16 2>&1 | grep -v 'Cannot open' | tail -5
